@@ -452,11 +452,40 @@ func init() {
 			return
 		}
 		fk := funcKey(f)
+		// the rotation: IncrementProposerPriority on a copy, spelled out or through the library's
+		// CopyIncrementProposerPriority (whose body is then held to the same shape)
 		calls := w.callsTo(f, "types#ValidatorSet.IncrementProposerPriority")
+		want := "cs.Validators.Copy().IncrementProposerPriority(libs/math.SafeSubInt32(round, cs.Round))"
+		rotated := "cs.RoundState.Validators.Copy()"
+		if len(calls) == 0 {
+			if calls = w.callsTo(f, "types#ValidatorSet.CopyIncrementProposerPriority"); len(calls) == 1 {
+				want = "cs.Validators.CopyIncrementProposerPriority(libs/math.SafeSubInt32(round, cs.Round))"
+				rotated = "cs.RoundState.Validators.CopyIncrementProposerPriority("
+				if g := c.fn("types", "ValidatorSet.CopyIncrementProposerPriority"); g != nil {
+					gk := funcKey(g)
+					in := w.callsTo(g, "types#ValidatorSet.IncrementProposerPriority")
+					okc := len(in) == 1 && w.callStr(in[0]) == "vals.Copy().IncrementProposerPriority(times)"
+					c.Check(okc, gk+" :: advances a copy by `times`", w.pos(g.Pos()), "vals.Copy().IncrementProposerPriority(times)", "the copying rotation is not Copy() followed by IncrementProposerPriority(times)")
+					rv := returnValues(g, 0)
+					c.Check(len(rv) == 1 && w.expr(rv[0]) == "vals.Copy()", gk+" :: returns the rotated copy", w.pos(g.Pos()), "vals.Copy()", "returns something else")
+					if len(in) == 1 {
+						okr := true
+						for _, b := range g.Blocks {
+							if r, isR := b.Instrs[len(b.Instrs)-1].(*ssa.Return); isR {
+								if p, _ := mustPrecede(g, r, w.callPred("types#ValidatorSet.IncrementProposerPriority")); !p {
+									okr = false
+								}
+							}
+						}
+						c.Check(okr, gk+" :: rotates before returning", w.pos(g.Pos()), "rotation precedes every return", "a return without the rotation")
+					}
+				}
+			}
+		}
 		c.Check(len(calls) == 1, fk+" rotates the proposer", w.pos(f.Pos()), "IncrementProposerPriority", fmt.Sprintf("%d calls", len(calls)))
 		for _, call := range calls {
 			s := strings.ReplaceAll(w.callStr(call), ".RoundState.", ".")
-			c.Check(s == "cs.Validators.Copy().IncrementProposerPriority(libs/math.SafeSubInt32(round, cs.Round))", fk+" :: advance by round - cs.Round on a copy", w.ipos(call), s, "rotation is "+s)
+			c.Check(s == want, fk+" :: advance by round - cs.Round on a copy", w.ipos(call), s, "rotation is "+s)
 			nec := w.necessaryAtoms(f, call)
 			for _, n := range nec {
 				ok := n == "cs.Round < round" || n == "cs.Height == height" || strings.Contains(n, "cs.Step") || n == "cs.Round <= round"
@@ -467,7 +496,7 @@ func init() {
 		for _, fs := range w.fieldStoresIn(f, "consensus/types", "RoundState", "Validators") {
 			n++
 			v := w.expr(fs.Store.Val)
-			c.Check(strings.Contains(v, "cs.RoundState.Validators.Copy()") && strings.HasPrefix(v, "phi("), fk+" :: the rotated copy becomes the round's validator set", w.ipos(fs.Store), v, "Validators = "+v)
+			c.Check(strings.Contains(v, rotated) && strings.HasPrefix(v, "phi("), fk+" :: the rotated copy becomes the round's validator set", w.ipos(fs.Store), v, "Validators = "+v)
 		}
 		c.Check(n == 1, fk+" :: stores the round's validator set", w.pos(f.Pos()), "1", fmt.Sprintf("%d stores", n))
 		// round and step are advanced
@@ -478,19 +507,13 @@ func init() {
 			// the single step is recognised by its selection of the validator with the most priority — in the
 			// step helper or, when that was inlined, in the loop itself
 			var inc []ssa.CallInstruction
-			for _, dc := range w.deepCallsTo(g, 1, "types#ValidatorSet.getValWithMostPriority") {
+			for _, dc := range w.deepCallsTo(g, 3, "types#ValidatorSet.getValWithMostPriority") {
 				inc = append(inc, dc.site)
 			}
 			c.Check(len(inc) == 1 && loopOf(inc[0]) != nil, gk+" :: one priority step per round", w.pos(g.Pos()), "loop", "no loop of single steps")
 			if len(inc) == 1 && loopOf(inc[0]) != nil {
-				nec := w.necessaryAtoms(g, inc[0])
-				found := false
-				for _, s := range nec {
-					if regexp.MustCompile(`^phi\(.*\) < times$|^times > phi\(.*\)$`).MatchString(s) {
-						found = true
-					}
-				}
-				c.Check(found, gk+" :: steps exactly `times` times", w.ipos(inc[0]), "i < times", "loop bound is not `times`: "+strings.Join(nec, " ; "))
+				trips, okT := unitLoopTrips(w, inc[0])
+				c.Check(okT && trips == "times", gk+" :: steps exactly `times` times", w.ipos(inc[0]), "`times` iterations", "the step runs "+trips+" times")
 			}
 			ok := false
 			for _, fs := range w.fieldStoresIn(g, "types", "ValidatorSet", "Proposer") {
